@@ -5,7 +5,7 @@ W=/var/tmp/applw-$$; rm -rf $W; git -C /repo worktree add --detach -q $W HEAD ||
 H=$(git -C /repo rev-parse --short HEAD); : > /verif/seeded/STALE.txt
 for d in /verif/seeded/S*/; do d=${d%/}
   ok=true
-  ( cd $W && { git apply --check $d/patch.diff 2>/dev/null || git apply --check -C1 --recount $d/patch.diff 2>/dev/null || patch -p1 -s -F3 --dry-run < $d/patch.diff >/dev/null 2>&1; } ) || ok=false
+  ( cd $W && { git apply --check $d/patch.diff 2>/dev/null || git apply --check -C1 --recount $d/patch.diff 2>/dev/null || patch -p1 -s -F2 --dry-run < $d/patch.diff >/dev/null 2>&1; } ) || ok=false
   [ $ok = false ] && basename $d >> /verif/seeded/STALE.txt
   /venv/bin/python - "$d/meta.json" $ok $H <<'PY'
 import json, sys
